@@ -64,6 +64,7 @@ type obj struct {
 	sealed  bool   // list header over the storage of a quoted program literal
 	quoted  bool   // list prints with a leading quote mark
 	ents    []ment // maps, sorted by name
+	json    bool   // map decoded by json:load-* (a different Map implementation behind the same type)
 }
 
 // layout is what was observed about the real slice behind a sequence object
@@ -334,6 +335,9 @@ func (w *world) serialize(order []int, lay map[int]layout) string {
 			}
 			if o.k == kList && !o.quoted {
 				sb.WriteByte('u')
+			}
+			if o.json {
+				sb.WriteByte('j')
 			}
 			if lay != nil {
 				if l, ok := lay[v.n]; ok {
